@@ -17,6 +17,7 @@ import random
 from .. import ezspref as X
 from .. import vloop, ncpsim, ncpmodel, appharness
 from ..runner import Acc
+from .. import logmode
 from ..contracts import install_status_contract
 
 PROPERTY = "C14"
@@ -58,7 +59,7 @@ def run_shard(desc) -> Acc:
     import zigpy.types as zt
     import zigpy.zdo.types as zdo_t
 
-    logging.disable(logging.CRITICAL)
+    logmode.apply(desc)
     acc = Acc()
     install_status_contract(acc)
     V, nv3 = desc["version"], desc["nv3"]
